@@ -81,8 +81,8 @@ theorem half_ok (v : UInt32) (buf : Array UInt8) (off : Nat) (n : UInt64) (h : o
     have h2' : ex.toNat ≠ 0 := fun hh => h2 (by simp [hh])
     have hw := wrapS8_id ((ex.toNat : Int) - 127) (by omega)
     simp only [hw] at h3 h4 ⊢
-    have h3' : ¬ ((ex.toNat : Int) - 127 < -24) := by simpa using h3
-    have h4' : ((ex.toNat : Int) - 127 < -14) := by simpa using h4
+    have h3' : ¬ ((ex.toNat : Int) - 127 < -24) := by have := h3; simp at this; omega
+    have h4' : ((ex.toNat : Int) - 127 < -14) := by have := h4; simp at this; omega
     generalize ((v &&& (2147483648 : UInt32)) >>> (16 : UInt32)).toUInt16 = s16
     have hidx : ((24 : UInt32) + C.toU32 ((ex.toNat : Int) - 127)).toNat < 32 := by
       simp [C.toU32, UInt32.toNat_add]; omega
